@@ -93,6 +93,7 @@ type tr struct {
 
 type closureCtx struct {
 	state []string // captured variables the closure assigns (Go names)
+	rets  []LT     // a pure multi-result closure (query predicates / transforms): its result types
 }
 
 type mapValBind struct {
@@ -185,7 +186,7 @@ func (t *tr) importName(x ast.Expr) (string, bool) {
 		return "", false
 	}
 	switch id.Name {
-	case "types", "math", "sdk", "sdkerrors", "errorsmod", "errors", "errcode", "keeper", "fmt", "collections", "time", "sort", "strconv", "banktypes", "telemetry":
+	case "types", "math", "sdk", "sdkerrors", "errorsmod", "errors", "errcode", "keeper", "fmt", "collections", "time", "sort", "strconv", "banktypes", "telemetry", "status", "codes", "query":
 		return id.Name, true
 	}
 	return "", false
@@ -361,6 +362,8 @@ func (t *tr) binary(e *ast.BinaryExpr, en env) V {
 				v = y
 			}
 			switch {
+			case strings.HasSuffix(v.T, "Req"):
+				s = "false" // a request the gRPC layer hands to the handler is never nil
 			case v.T == "Err":
 				s = "(!" + v.L + ")" // err == nil
 			case strings.HasPrefix(v.T, "Option "):
@@ -368,6 +371,14 @@ func (t *tr) binary(e *ast.BinaryExpr, en env) V {
 			default:
 				return t.bad("comparison of %s with nil", v.T)
 			}
+		case (y.T == "String" && y.L == leanStr("") && strings.HasPrefix(x.T, "Option ")) ||
+			(x.T == "String" && x.L == leanStr("") && strings.HasPrefix(y.T, "Option ")):
+			// an optional request string (modelled by what it denotes): "" is absent
+			v := x
+			if x.T == "String" {
+				v = y
+			}
+			s = "(" + v.L + ").isNone"
 		default:
 			if x.T == "Option "+y.T {
 				y = V{"(some " + y.L + ")", x.T}
@@ -472,10 +483,10 @@ func (t *tr) composite(e *ast.CompositeLit, en env) V {
 		if !ok {
 			return t.bad("field %s in literal of %s", k, name)
 		}
-		v := t.expr(kv.Value, en)
 		if f == "" {
-			continue // field that is a function of the key in the model
+			continue // field that is a function of the key in the model, or not modelled (pagination)
 		}
+		v := t.expr(kv.Value, en)
 		parts = append(parts, strings.ReplaceAll(f, "%s", v.L))
 	}
 	return V{"({ " + strings.Join(parts, ", ") + " } : " + c.T + ")", c.T}
@@ -495,6 +506,9 @@ func (t *tr) call(e *ast.CallExpr, en env) V {
 	callee := t.calleeKey(e.Fun)
 	if callee == "sdk.UnwrapSDKContext" {
 		return V{"()", "SdkCtx"}
+	}
+	if callee == "query.CollectionFilteredPaginate" || callee == "query.CollectionPaginate" {
+		return t.paginate(e, callee == "query.CollectionFilteredPaginate", en)
 	}
 	if ile, ok := e.Fun.(*ast.IndexListExpr); ok && t.w.render(ile.X) == "collections.NewPrefixedPairRange" && len(e.Args) == 1 {
 		// `collections.NewPrefixedPairRange[K1, K2](prefix)`: all pairs whose first component is the prefix
@@ -649,7 +663,7 @@ func (t *tr) call(e *ast.CallExpr, en env) V {
 				if fn, ok := funcs[imp+"."+f.Sel.Name]; ok {
 					return t.apply(fn, nil, e.Args, en)
 				}
-				if imp == "sdkerrors" || imp == "errorsmod" || imp == "fmt" || imp == "errors" || imp == "errcode" {
+				if imp == "sdkerrors" || imp == "errorsmod" || imp == "fmt" || imp == "errors" || imp == "errcode" || imp == "status" {
 					return V{"true", "Err"} // constructing an error value
 				}
 				return t.bad("call of %s.%s", imp, f.Sel.Name)
@@ -828,6 +842,27 @@ func leanTypeAtom(t LT) string {
 
 // ret renders a `return` of the enclosing function.
 func (t *tr) ret(s *ast.ReturnStmt, en env) string {
+	if t.closure != nil && t.closure.rets != nil {
+		if len(s.Results) != len(t.closure.rets) {
+			return t.failf("closure return arity")
+		}
+		var vals []string
+		for i, r := range s.Results {
+			want := t.closure.rets[i]
+			v := t.expr(r, en)
+			switch {
+			case want == "Err" && v.T == "Nil":
+				v = V{"false", "Err"}
+			case v.T == "Nil" && defaultable[want]:
+				v = V{"(default : " + leanType(want) + ")", want}
+			case want == "Bool" && (v.L == "true" || v.L == "false"):
+			case v.T != want:
+				return t.failf("closure returns %s, expected %s", v.T, want)
+			}
+			vals = append(vals, v.L)
+		}
+		return t.takePre() + "(" + strings.Join(vals, ", ") + ")"
+	}
 	if t.closure != nil {
 		if len(s.Results) != 1 {
 			return t.failf("closure return arity")
@@ -2340,10 +2375,11 @@ var groupDeps = map[string][]string{
 	"Import":   {"Pure"},
 	"Export":   {"Pure"},
 	"Getters":  {"Pure"},
+	"Queries":  {"Pure"},
 	"Server":   {"Pure", "Msgs", "Bids", "Auctions"},
 }
 
-var groupOrder = []string{"Pure", "Msgs", "Bids", "Auctions", "Settle", "Match", "Payout", "Server", "Genesis", "Import", "Export", "Getters"}
+var groupOrder = []string{"Pure", "Msgs", "Bids", "Auctions", "Settle", "Match", "Payout", "Server", "Genesis", "Import", "Export", "Getters", "Queries"}
 
 // translateUnits renders Generated/Code/<Group>.lean, one file per group of units.
 func (w *World) translateUnits() map[string]string {
@@ -2359,7 +2395,7 @@ func (w *World) translateUnits() map[string]string {
 		b.WriteString("  Each definition is the translation of the named Go function of /repo as it is NOW;\n")
 		b.WriteString("  Fundraising/Proofs/Tie/*.lean prove each equal to the hand-written model.\n-/\n")
 		b.WriteString("import Fundraising.Tables.GoSem\n")
-		if g == "Import" || g == "Export" || g == "Getters" {
+		if g == "Import" || g == "Export" || g == "Getters" || g == "Queries" {
 			b.WriteString("import Fundraising.Tables.GoStore\n")
 		}
 		if g == "Match" || g == "Payout" {
@@ -2409,4 +2445,124 @@ func (w *World) translateUnits() map[string]string {
 		out[g] = b.String()
 	}
 	return out
+}
+
+// pureClosure: a function literal `func(key, value) (R1, …, error)` that assigns nothing it
+// captures (query predicates and transforms) becomes an auxiliary definition over the captured
+// variables and the VALUE (the key is not available: the records carry their key fields).
+// Returns the Lean function term `(fun v__ => aux frees… v__)`.
+func (t *tr) pureClosure(fl *ast.FuncLit, elT LT, rets []LT, en env, tag string) (string, bool) {
+	ps := paramNames(fl.Type.Params)
+	if len(ps) != 2 {
+		t.bad("closure arity")
+		return "", false
+	}
+	body := &ast.BlockStmt{List: fl.Body.List}
+	if len(assignedOuter(body, en, t.u.Alias)) > 0 {
+		t.bad("closure assigns a captured variable")
+		return "", false
+	}
+	var frees []string
+	for x := range freeIdents(body) {
+		if v, ok := en.m[x]; ok && v.t != "Keeper" && v.t != "Poison" && v.lean != "false" && v.lean != "true" && x != ps[0] && x != ps[1] {
+			frees = append(frees, x)
+		}
+	}
+	sort.Strings(frees)
+	t.nclos++
+	name := fmt.Sprintf("%s.%s%d", t.u.Name, tag, t.nclos)
+	cen := en.deeper()
+	var params, callArgs []string
+	for _, x := range frees {
+		v := en.m[x]
+		params = append(params, fmt.Sprintf("(%s : %s)", v.lean, leanType(v.t)))
+		callArgs = append(callArgs, v.lean)
+	}
+	var valName string
+	cen, valName = t.declare(cen, ps[1], elT)
+	if ps[0] != "_" {
+		cen.m[ps[0]] = evar{"POISON_key", "Poison", cen.depth}
+	}
+	params = append(params, fmt.Sprintf("(%s : %s)", valName, leanType(elT)))
+	oldLoop, oldClos, oldPre, oldWalk := t.loop, t.closure, t.pre, t.inWalk
+	t.loop, t.closure, t.pre, t.inWalk = nil, &closureCtx{rets: rets}, nil, true
+	failBefore := t.fail
+	bodyL := t.stmts(body.List, cen, func(e2 env) string { return t.failf("closure falls off its end") })
+	t.loop, t.closure, t.pre, t.inWalk = oldLoop, oldClos, oldPre, oldWalk
+	if failBefore == "" && t.fail != "" {
+		return "", false
+	}
+	var rt []string
+	for _, r := range rets {
+		rt = append(rt, leanTypeAtom(r))
+	}
+	t.aux = append(t.aux, fmt.Sprintf("def %s %s : (%s) :=\n%s\n", name, strings.Join(params, " "), strings.Join(rt, " × "), indent(bodyL)))
+	return fmt.Sprintf("(fun v__ => %s %s v__)", name, strings.Join(callArgs, " ")), true
+}
+
+// paginate: `query.CollectionPaginate(ctx, coll, pageReq, transform, opts…)` and
+// `query.CollectionFilteredPaginate(ctx, coll, pageReq, pred, transform, opts…)`: all pages
+// together are the records of the collection (under the pair prefix, if that option is given),
+// in key order, that satisfy the predicate, each transformed (`Go.paginate`, Tables/GoStore.lean).
+// How the SDK cuts this list into pages is not modelled.
+func (t *tr) paginate(e *ast.CallExpr, filtered bool, en env) V {
+	need := 4
+	if filtered {
+		need = 5
+	}
+	if len(e.Args) < need {
+		return t.bad("paginate arity")
+	}
+	sel, ok := e.Args[1].(*ast.SelectorExpr)
+	if !ok {
+		return t.bad("paginate over %s", t.w.render(e.Args[1]))
+	}
+	cs, ok := t.u.Calls["paginate:"+sel.Sel.Name]
+	if !ok || !t.u.StoreOn {
+		return t.bad("paginate over collection %s", sel.Sel.Name)
+	}
+	elT := strings.TrimPrefix(cs.Value.T, "List ")
+	list := strings.ReplaceAll(cs.Walk, "%s", "st__")
+	for _, o := range e.Args[need:] {
+		oc, ok := o.(*ast.CallExpr)
+		if !ok || len(oc.Args) != 1 {
+			return t.bad("pagination option %s", t.w.render(o))
+		}
+		ile, ok := oc.Fun.(*ast.IndexListExpr)
+		if !ok || t.w.render(ile.X) != "query.WithCollectionPaginationPairPrefix" || cs.WalkPrefix == "" {
+			return t.bad("pagination option %s", t.w.render(o))
+		}
+		p := t.expr(oc.Args[0], en)
+		if p.T != "Int" {
+			return t.bad("pair prefix of type %s", p.T)
+		}
+		list = strings.ReplaceAll(strings.ReplaceAll(cs.WalkPrefix, "%s", "st__"), "%p", atom(p.L))
+	}
+	pred := "(fun _ => (true, false))"
+	ti := 3
+	if filtered {
+		fl, ok := e.Args[3].(*ast.FuncLit)
+		if !ok {
+			return t.bad("pagination predicate is not a function literal")
+		}
+		var okp bool
+		pred, okp = t.pureClosure(fl, elT, []LT{"Bool", "Err"}, en, "pred")
+		if !okp {
+			return V{"UNTRANSLATABLE", "?"}
+		}
+		ti = 4
+	}
+	fl, ok := e.Args[ti].(*ast.FuncLit)
+	if !ok || fl.Type.Results == nil || len(fl.Type.Results.List) != 2 {
+		return t.bad("pagination transform is not a function literal")
+	}
+	rT, ok := t.typeName(t.w.render(fl.Type.Results.List[0].Type))
+	if !ok {
+		return t.bad("pagination transform result %s", t.w.render(fl.Type.Results.List[0].Type))
+	}
+	tr, okt := t.pureClosure(fl, elT, []LT{rT, "Err"}, en, "transform")
+	if !okt {
+		return V{"UNTRANSLATABLE", "?"}
+	}
+	return V{fmt.Sprintf("(Go.paginate %s %s %s)", list, pred, tr), "(List " + rT + " × Unit × Err)"}
 }
